@@ -516,17 +516,27 @@ def warm_numba():
         pass
 
 
-def pmap(fn, items, procs=None):
-    """fork-based parallel map over picklable items (fn must be top-level or closure-free-safe under fork)."""
+def pmap(fn, items, procs=None, warm=True):
+    """fork-based parallel map over picklable items (fn must be top-level or closure-free-safe under fork).
+    warm: the first item is evaluated in this process before the pool is forked, so that whatever it compiles (numba) is compiled
+    once - and saved to the on-disk cache by this process only - and inherited by every worker instead of being compiled by all
+    of them at the same time (which, on a busy machine, can outlast the timeouts of the code under test)."""
     import multiprocessing as mp
     if "strax" in sys.modules:
         warm_numba()
     procs = procs or NCPU
     if procs <= 1 or len(items) <= 1:
         return [fn(x) for x in items]
+    first = None
+    if warm:
+        first = [fn(items[0])]
+        items = items[1:]
+        if len(items) == 1:
+            return first + [fn(items[0])]
     ctx = mp.get_context("fork")
     with ctx.Pool(procs, initializer=_worker_init) as pool:
-        return pool.map(fn, items, chunksize=max(1, len(items) // (procs * 8)))
+        rest = pool.map(fn, items, chunksize=max(1, len(items) // (procs * 8)))
+    return (first or []) + rest
 
 
 def _worker_init():
